@@ -326,6 +326,30 @@ m("C15","shutdown-refund-to-ip-derived","x/storage/keeper/msg_server_init_provid
 
 		err = k.bankKeeper.SendCoinsFromModuleToAccount""","C15/R2","recipient-is-signer")
 
+# ---- C04
+m("C04","referrer-gets-pol-share","x/storage/keeper/msg_server_buy_storage.go",
+  'SendCoinsFromModuleToAccount(ctx, types.ModuleName, refAcc, refTokens)','SendCoinsFromModuleToAccount(ctx, types.ModuleName, refAcc, polTokens)',"C04/R3","share:referrer","inverse of fix F3")
+m("C04","gauge-funded-with-topay","x/storage/keeper/msg_server_buy_storage.go",
+  'err = k.bankKeeper.SendCoinsFromModuleToAccount(ctx, types.ModuleName, acc, spcTokens)','err = k.bankKeeper.SendCoinsFromModuleToAccount(ctx, types.ModuleName, acc, sdk.NewCoins(toPay))',"C04/R2","gauge-funded=recorded")
+m("C04","pol-and-ref-accounts-swapped","x/storage/keeper/msg_server_buy_storage.go",
+  'err = k.bankKeeper.SendCoinsFromModuleToAccount(ctx, types.ModuleName, polAcc, polTokens)','_ = polAcc\n\terr = k.bankKeeper.SendCoinsFromModuleToAccount(ctx, types.ModuleName, refAcc, polTokens)',"C04/R3","share:referrer")
+m("C04","swallow-pol-send-error","x/storage/keeper/msg_server_buy_storage.go",
+  """	if err != nil {
+		return nil, sdkerrors.Wrapf(err, "cannot send tokens to pol account")
+	}""","""	if err != nil {
+		ctx.Logger().Error(err.Error())
+	}""","C04/R5","error-propagates")
+m("C04","gauge-records-other-coins","x/storage/keeper/gauges.go",
+  'Coins: coins,','Coins: coins.Add(coins...),',"C04/R2","gauge-constructor:records-argument")
+m("C04","postfile-debit-ignores-replication","x/storage/keeper/msg_server_post_file.go",
+  'totalSize := msg.FileSize * msg.MaxProofs','totalSize := msg.FileSize',"C04/R1","storage.MsgPostFile:debit-is-price")
+m("C04","extra-payout-to-foraddress","x/storage/keeper/msg_server_buy_storage.go",
+  '	refCut := toPay.Amount.ToDec().Mul(refDec) // 25% to referrals','	_ = k.bankKeeper.SendCoinsFromModuleToAccount(ctx, types.ModuleName, forAddr, polTokens)\n	refCut := toPay.Amount.ToDec().Mul(refDec) // 25% to referrals',"C04/R4","recipient:unknown")
+m("C04","pol-cut-from-storage-cost","x/storage/keeper/msg_server_buy_storage.go",
+  'polCut := toPay.Amount.ToDec().Mul(pol) // 40,35,30% to pol','polCut := sdk.NewDec(1000000).Mul(pol) // 40,35,30% to pol',"C04/R1","cut-base:pol")
+m("C04","postfile-gauge-funded-differs","x/storage/keeper/msg_server_post_file.go",
+  'err = k.bankKeeper.SendCoinsFromModuleToAccount(ctx, types.ModuleName, acc, spcTokens)','err = k.bankKeeper.SendCoinsFromModuleToAccount(ctx, types.ModuleName, acc, sdk.NewCoins(toPay))',"C04/R2","storage.MsgPostFile:gauge-funded=recorded")
+
 for x in M:
     d = os.path.join(os.path.dirname(os.path.abspath(__file__)), x["property"])
     os.makedirs(d, exist_ok=True)
